@@ -96,7 +96,11 @@ func zzxRefContradicting(n *zzxNode, h *blockchain.BlockHeader) bool {
 func zzH_C03_accept_implies_rules(t *zzT) { zzxAcceptStep(t) }
 
 func zzxAcceptStep(t *zzT) {
-	zzxDevPick = t.Choice("deviation", len(zzxDevNames))
+	if only := t.Param("onlydev", -1); only >= 0 {
+		zzxDevPick = only
+	} else {
+		zzxDevPick = t.Choice("deviation", len(zzxDevNames))
+	}
 	zzxDevPick2 = 0
 	if t.Param("pairs", 0) == 1 {
 		zzxDevPick2 = t.Choice("deviation2", len(zzxDevNames))
@@ -251,6 +255,7 @@ func zzxAcceptStep(t *zzT) {
 		t.Assert(finAfter >= finBefore, "finalized height never decreases")
 		if finAfter > finBefore {
 			t.Assert(n.drained(n.chFinal) == 1, "a finalization event is emitted for the raise")
+			t.Reach("finality-raised")
 		} else {
 			t.Assert(n.drained(n.chFinal) == 0, "no finalization event without a raise")
 		}
@@ -425,10 +430,10 @@ func zzxRestartCheck(t *zzT, n *zzxNode) {
 // C13.a/b/c (commit side): see zzxAcceptStep — exactly one atomic write per accepted block, none per
 // rejected block, application commit before it, restart finds a consistent tip in both outcomes.
 //
-//zz:opt loop=80 lockdiscipline=off require=accepted,rejected
+//zz:opt loop=80 lockdiscipline=off require=accepted,rejected,finality-raised
 //zz:stub time.Now zzxStubNow
-//zz:quick extra=1 pairs=0 budget=300s
-//zz:thorough extra=2 pairs=0 budget=30m
+//zz:quick extra=3 pairs=0 budget=300s
+//zz:thorough extra=4 pairs=0 budget=30m
 func zzH_C13_commit_atomic(t *zzT) { zzxAcceptStep(t) }
 
 // C13.a/b/c (removal side): see zzxDeleteStep.
@@ -440,8 +445,19 @@ func zzH_C13_remove_atomic(t *zzT) { zzxDeleteStep(t) }
 // C04.b: finalized height raised to the precommitted height in the same write, event iff raised
 // (assertions of zzxAcceptStep).
 //
+//zz:opt loop=80 lockdiscipline=off require=accepted,rejected,finality-raised
+//zz:stub time.Now zzxStubNow
+//zz:quick extra=3 pairs=0 budget=300s
+//zz:thorough extra=4 pairs=0 budget=30m
+func zzH_C04_finalized_height_step(t *zzT) { zzxAcceptStep(t) }
+
+// C03.a, contradiction rule on a chain long enough that the generator of the new block already has TWO
+// headers inside the vote window (genesis + 4 blocks, 2 validators): the block is accepted only if its
+// maxHeightGenerated does not contradict the generator's MOST RECENT header (reference:
+// zzxRefContradicting). Only the maxHeightGenerated deviation (index 9 of zzxDevNames) is explored.
+//
 //zz:opt loop=80 lockdiscipline=off require=accepted,rejected
 //zz:stub time.Now zzxStubNow
-//zz:quick extra=2 pairs=0 budget=300s
-//zz:thorough extra=3 pairs=0 budget=30m
-func zzH_C04_finalized_height_step(t *zzT) { zzxAcceptStep(t) }
+//zz:quick extra=4 onlydev=9 finAhead=0 budget=300s
+//zz:thorough extra=5 onlydev=9 finAhead=0 budget=30m
+func zzH_C03_contradiction_in_window(t *zzT) { zzxAcceptStep(t) }
